@@ -5,6 +5,7 @@ import (
 	"fmt"
 	"os"
 	"strconv"
+	"strings"
 	"sync"
 	"sync/atomic"
 
@@ -75,6 +76,12 @@ func evalLogged(f *Forest, src string, res []fhir.Resource, copts []fhirpath.Com
 	return out
 }
 
+var burstN int64
+
+func repeatable(src string) bool {
+	return !strings.Contains(src, "now()") && !strings.Contains(src, "today()") && !strings.Contains(src, "timeOfDay()")
+}
+
 func evalOutcome(f *Forest, src string, res []fhir.Resource, copts []fhirpath.CompileOption, eopts []fhirpath.EvaluateOption) Outcome {
 	var out Outcome
 	rep := SafeRetry(func() {
@@ -88,12 +95,31 @@ func evalOutcome(f *Forest, src string, res []fhir.Resource, copts []fhirpath.Co
 			out = Outcome{"k": "cerr", "cls": []string{"NilExpression"}, "msg": "Compile returned nil, nil"}
 			return
 		}
-		c, err := e.Evaluate(res, eopts...)
-		if err != nil {
-			out = ErrOutcome("err", err)
-			return
+		run := func() Outcome {
+			c, err := e.Evaluate(res, eopts...)
+			if err != nil {
+				return ErrOutcome("err", err)
+			}
+			return OkOutcome(f.ProjectCollection(c))
 		}
-		out = OkOutcome(f.ProjectCollection(c))
+		out = run()
+		// The same compiled expression on the same inputs again, while the other workers of the harness evaluate their
+		// own cases: a result that is not a function of its inputs (state shared between goroutines or kept from the
+		// first evaluation) shows as an outcome that changes. Not for the clock functions without a fixed clock.
+		if repeatable(src) {
+			// every 16th evaluation is a burst of 100 repetitions: the workers take neighbouring cases (the same function
+			// on other operands), so bursts overlap and shared state between goroutines gets its chance
+			reps := 2
+			if atomic.AddInt64(&burstN, 1)%16 == 0 {
+				reps = 100
+			}
+			for k := 0; k < reps; k++ {
+				if again := run(); !SameOutcome(out, again) {
+					out = Outcome{"k": "panic", "site": "unstable", "msg": "the same compiled expression evaluated again on the same inputs gave another outcome"}
+					return
+				}
+			}
+		}
 	})
 	if rep.Timeout {
 		return TimeoutOutcome()
